@@ -402,3 +402,346 @@ def gen_history(rng, cfg, flat=None):
                                for _ in range(rng.choice([0, 1, 1, 1, 2]))]
                               for _ in range(rng.choice([1, 2, 3]))]
     return (top, scripts)
+
+
+# --------------------------------------------------------------------------
+# oracle (independent of the model): the statement of C24 evaluated on the records
+# --------------------------------------------------------------------------
+
+def split_ops(rec):
+    """top-level operations with what happened during each: [(op, [records])]; records before
+    the first call (auto_connect(0) connects when the observable is built) under op None"""
+    out, cur, depth = [(None, [])], None, 0
+    for r in rec:
+        if r["t"] == "call" and r["parent"] is None:
+            out.append((r["op"], []))
+        out[-1][1].append(r)
+    return out
+
+
+def retained(buf, bs, w, now):
+    vals = list(buf)
+    if bs is not None:
+        vals = vals[max(0, len(vals) - bs):] if bs > 0 else []
+    if w is not None:
+        vals = [(t, v) for (t, v) in vals if now - t <= w]
+    return [("N", v) for (_, v) in vals]
+
+
+class Expect:
+    """What the PROPERTY says must happen on a history of top-level operations, computed from the
+    history alone: the source is subscribed once per connection and only while connected;
+    ref_count / share connect when the number of subscribers goes 0 -> 1 and disconnect when it
+    returns to 0; auto_connect(n) connects when the n-th subscriber arrives, once; a subscriber
+    receives what the shared subject receives from its subscription on, after the current value
+    (publish_value) / the retained values (replay); a subject that has ended greets a newcomer
+    with the terminal notification only (replay: retained values first; AsyncSubject: its last
+    value first)."""
+
+    def __init__(self, cfg):
+        self.cfg = cfg
+        self.kind = cfg["subject"][0]
+        self.mode = cfg["mode"][0]
+        self.n_auto = cfg["mode"][1] if self.mode == "auto" else None
+        self.cold = cfg.get("cold", [])
+        self.connected = False          # a connection exists (connect() .. its disposal)
+        self.conn_id = -1               # number of the current connection
+        self.src_open = False           # the source subscription of the current connection is alive
+        self.next_cid = 0
+        self.status = "live"            # or ('term', note)
+        self.value = cfg["subject"][1] if self.kind == "behavior" else None
+        self.has_value = False
+        self.buf = []                   # replay: every accepted (time, value)
+        self.clock = 0
+        self.subs = []                  # current subscribers of the subject, in order
+        self.used = set()
+        self.count = 0                  # ref_count: current subscribers of the ref-counted observable
+        self.rc_members = set()
+        self.arrivals = 0
+        self.handles = []               # connection number each connect() call returned
+        self.got = {}                   # o -> expected notifications
+        self.src = []                   # expected source events of the current operation
+        if self.mode == "auto" and self.n_auto == 0:
+            self.connect()
+
+    # -- the subject ---------------------------------------------------
+    def give(self, o, notes):
+        self.got.setdefault(o, []).extend(notes)
+
+    def feed(self, n):
+        if self.status != "live":
+            return
+        if n[0] == "N":
+            self.value, self.has_value = n[1], True
+            self.buf.append((self.clock, n[1]))
+            if self.kind != "async":
+                for o in list(self.subs):
+                    self.give(o, [n])
+            return
+        self.status = ("term", n)
+        last = [("N", self.value)] if (self.kind == "async" and n[0] == "C" and self.has_value) else []
+        leaving, self.subs = self.subs, []
+        for o in leaving:
+            self.give(o, last + [n])
+        for o in leaving:
+            self.left(o)
+
+    def greeting(self):
+        if self.status == "live":
+            if self.kind == "behavior":
+                return [("N", self.value)]
+            if self.kind == "replay":
+                return retained(self.buf, self.cfg["subject"][1], self.cfg["subject"][2], self.clock)
+            return []
+        t = self.status[1]
+        if self.kind == "replay":
+            return retained(self.buf, self.cfg["subject"][1], self.cfg["subject"][2], self.clock) + [t]
+        if self.kind == "async" and t[0] == "C" and self.has_value:
+            return [("N", self.value), t]
+        return [t]
+
+    # -- the connection ------------------------------------------------
+    def connect(self):
+        if self.connected:
+            return
+        self.connected, self.src_open = True, True
+        self.conn_id = self.next_cid
+        self.next_cid += 1
+        self.src.append(("ssub", self.conn_id))
+        for n in self.cold:
+            self.from_source(n)
+
+    def from_source(self, n):
+        if not self.src_open:
+            return
+        self.feed(n)
+        if n[0] != "N" and self.src_open:
+            self.src_open = False
+            self.src.append(("sunsub", self.conn_id))
+
+    def disconnect(self):
+        if not self.connected:
+            return
+        self.connected = False
+        if self.src_open:
+            self.src_open = False
+            self.src.append(("sunsub", self.conn_id))
+
+    def left(self, o):
+        """o stops being a subscriber of the ref-counted observable"""
+        if self.mode in ("refcount", "share") and o in self.rc_members:
+            self.rc_members.discard(o)
+            self.count -= 1
+            if self.count == 0:
+                self.disconnect()
+
+    # -- the history ----------------------------------------------------
+    def op(self, op):
+        self.src = []
+        k = op[0]
+        if k == "sub":
+            o = op[1]
+            if o in self.used:
+                return
+            self.used.add(o)
+            first = False
+            if self.mode in ("refcount", "share"):
+                self.count += 1
+                self.rc_members.add(o)
+                first = self.count == 1
+            elif self.mode == "auto":
+                self.arrivals += 1
+                first = self.arrivals == self.n_auto
+            self.give(o, self.greeting())
+            if self.status == "live":
+                self.subs.append(o)
+            if first:
+                self.connect()
+            if o not in self.subs:
+                self.left(o)
+        elif k == "unsub":
+            o = op[1]
+            if o in self.subs:
+                self.subs.remove(o)
+            if o in self.used:
+                self.left(o)
+        elif k == "connect":
+            if self.mode != "share":
+                self.connect()
+                self.handles.append(self.conn_id)
+        elif k == "disc":
+            if op[1] < len(self.handles) and self.handles[op[1]] == self.conn_id:
+                self.disconnect()
+        elif k in ("next", "err", "done"):
+            self.from_source(subj.note_of(op))
+        elif k == "adv":
+            if self.kind == "replay" and op[1] >= 0:
+                self.clock += op[1]
+
+
+def oracle(cfg, hist, rec):
+    """-> list of (signature, detail)"""
+    top, scripts = hist
+    bad = []
+    mode = cfg["mode"][0]
+    flat = not scripts
+
+    def fail(what, **d):
+        bad.append((f"{what}|{mode}|{cfg['subject'][0]}|flat={int(flat)}", dict(d, what=what)))
+
+    if rec and rec[0]["t"] == "build-raised":
+        fail("build-raised", raised=rec[0]["raised"])
+        return bad
+    # 1. at most one source subscription at any time; unsubscribe matches the open one
+    #    (subject_factory + mapper: one per subscriber, each disposed at most once)
+    open_cid, last = None, -1
+    if mode == "mapper":
+        seen, closed = set(), set()
+        for r in rec:
+            if r["t"] == "ssub":
+                if r["cid"] != len(seen):
+                    fail("source-subscription-numbering", cid=r["cid"])
+                seen.add(r["cid"])
+            elif r["t"] == "sunsub":
+                if r["cid"] not in seen or r["cid"] in closed:
+                    fail("source-unsubscribed-without-subscription", cid=r["cid"])
+                closed.add(r["cid"])
+    for r in ([] if mode == "mapper" else rec):
+        if r["t"] == "ssub":
+            if open_cid is not None:
+                fail("source-subscribed-twice", open=open_cid, again=r["cid"])
+            if r["cid"] != last + 1:
+                fail("source-subscription-numbering", cid=r["cid"])
+            open_cid, last = r["cid"], r["cid"]
+        elif r["t"] == "sunsub":
+            if open_cid != r["cid"]:
+                fail("source-unsubscribed-without-subscription", open=open_cid, cid=r["cid"])
+            open_cid = None
+    # 2. who may subscribe the source: connect() (plain), subscribe() (ref_count, share, auto_connect)
+    stack = []
+    calls = {}
+    for r in rec:
+        if r["t"] == "call":
+            calls[r["id"]] = r
+            stack.append(r["id"])
+        elif r["t"] == "ret":
+            stack.pop()
+        elif r["t"] == "ssub":
+            inner = calls[stack[-1]]["op"][0] if stack else None
+            manual = any(c["op"][0] == "connect" for c in calls.values())
+            if mode == "mapper":
+                allowed = ("sub",)
+            elif mode == "plain":
+                allowed = ("connect",)
+            elif mode == "auto" and cfg["mode"][1] == 0 and inner is None:
+                continue
+            else:
+                allowed = ("sub", "connect") if manual else ("sub",)
+            if inner not in allowed:
+                fail("source-subscribed-outside-connect", during=inner)
+    # 3. per-subscriber grammar
+    views = {}
+    for r in rec:
+        if r["t"] == "got":
+            views.setdefault(r["o"], []).append(r["n"])
+    for o, v in views.items():
+        if not subj.wellformed(v):
+            fail("grammar", observer=o, received=v)
+    for r in rec:
+        if r["t"] == "ret" and r["raised"] is not None and flat:
+            fail("call-raised", raised=r["raised"])
+    if not flat:
+        return bad
+    # 4. histories of top-level calls: the exact expectation
+    if mode == "mapper":
+        return bad + oracle_mapper(cfg, top, rec, fail)
+    ex = Expect(cfg)
+    ops = split_ops(rec)
+    pre = [(r["t"], r["cid"]) for r in ops[0][1] if r["t"] in ("ssub", "sunsub")]
+    if pre != ex.src:
+        fail("source-events-at-build", got=pre, expected=ex.src)
+    for i, (op, rs) in enumerate(ops[1:]):
+        ex.op(op)
+        got = [(r["t"], r["cid"]) for r in rs if r["t"] in ("ssub", "sunsub")]
+        if got != ex.src:
+            what = "source-events"
+            if mode == "auto":
+                what = "auto-connect-instant"
+            elif mode in ("refcount", "share"):
+                what = "ref-count-edges"
+            fail(what, index=i, op=op, got=got, expected=ex.src)
+            break
+    else:
+        for o in sorted(set(views) | set(ex.got)):
+            if views.get(o, []) != ex.got.get(o, []):
+                fail("subscriber-sequence", observer=o, received=views.get(o, []), expected=ex.got.get(o, []))
+    return bad
+
+
+def oracle_mapper(cfg, top, rec, fail):
+    """multicast(subject_factory, mapper): every subscription is its own multicast invocation:
+    its own subject, ONE source subscription made by that subscribe() call (however often the
+    mapper uses the connectable), disposed when the subscriber leaves or the source ends."""
+    bad_before = 0
+    kind, which = cfg["subject"][0], cfg["mode"][1]
+    dup = 2 if which == "merge2" else 1
+    ops = split_ops(rec)
+    owner, opened = {}, {}          # cid -> o ; o -> cid
+    used, active = set(), []
+    expect = {}
+    last = {}
+    ncid = 0
+    for i, (op, rs) in enumerate(ops[1:]):
+        src = [(r["t"], r["cid"]) for r in rs if r["t"] in ("ssub", "sunsub")]
+        want = []
+        k = op[0]
+        if k == "sub" and op[1] not in used:
+            o = op[1]
+            used.add(o)
+            active.append(o)
+            opened[o] = ncid
+            want.append(("ssub", ncid))
+            ncid += 1
+            expect[o] = [("N", cfg["subject"][1])] * dup if kind == "behavior" else []
+            last[o] = None
+            alive = True
+            for n in cfg.get("cold", []):
+                if alive:
+                    alive = mapper_feed(kind, dup, expect, last, o, n)
+            if not alive:
+                active.remove(o)
+                want.append(("sunsub", opened[o]))
+        elif k == "unsub" and op[1] in active:
+            active.remove(op[1])
+            want.append(("sunsub", opened[op[1]]))
+        elif k in ("next", "err", "done"):
+            n = subj.note_of(op)
+            for o in list(active):
+                if not mapper_feed(kind, dup, expect, last, o, n):
+                    active.remove(o)
+                    want.append(("sunsub", opened[o]))
+        if sorted(src) != sorted(want):
+            fail("mapper-source-events", index=i, op=op, got=src, expected=want)
+            return []
+    views = {}
+    for r in rec:
+        if r["t"] == "got":
+            views.setdefault(r["o"], []).append(r["n"])
+    for o in sorted(set(views) | set(expect)):
+        if views.get(o, []) != expect.get(o, []):
+            fail("mapper-subscriber-sequence", observer=o, received=views.get(o, []), expected=expect.get(o, []))
+    return []
+
+
+def mapper_feed(kind, dup, expect, last, o, n):
+    """-> still alive"""
+    if n[0] == "N":
+        if kind == "async":
+            last[o] = n
+        else:
+            expect[o].extend([n] * dup)
+        return True
+    if kind == "async" and n[0] == "C" and last[o] is not None:
+        expect[o].extend([last[o]] * dup)
+    expect[o].append(n)
+    return False
